@@ -136,6 +136,8 @@ type world struct {
 	curPw   map[string]uint64
 	origin  map[string]string // "new" | "import" | "foreign" | "changed"
 	dupAddr bool
+	others  int
+	keep    []*account.ClientImpl // the other wallets opened in this process stay alive
 	expDefault string // shadow: the account that must be the default = first account of the wallet, then the last SetDefaultAccount
 }
 
@@ -431,6 +433,34 @@ func exec(line string) hx.Result {
 				return hx.Result{Out: "bad-op"}
 			}
 			o = errClass(w.cli.ChangeSigScheme(a, s.SignatureScheme(sch)), false)
+		case p[0] == "ow" && len(p) == 2:
+			// another wallet file with its own scrypt parameters is opened - and used - in the same process, and stays alive
+			op, err := strconv.Atoi(p[1])
+			if err != nil || prms[op] == nil {
+				return hx.Result{Out: "bad-op"}
+			}
+			w.others++
+			path2 := fmt.Sprintf("%s.other%d", w.path, w.others)
+			sp := prms[op]
+			os.WriteFile(path2, []byte(fmt.Sprintf(`{"name":"Other","version":"1.1","scrypt":{"p":%d,"n":%d,"r":%d,"dkLen":%d},"accounts":[]}`, sp.P, sp.N, sp.R, sp.DKLen)), 0o644)
+			defer os.Remove(path2)
+			defer os.Remove(path2 + "~")
+			c2, err := account.NewClientImpl(path2)
+			if err != nil {
+				return hx.Result{Out: "open-other-error"}
+			}
+			ps := persons[5]
+			if prot, err := keypair.EncryptWithCustomScrypt(ps.prv, ps.addr, pwBytes(1), prms[1]); err == nil { // a save in the other wallet
+				c2.ImportAccount(&account.AccountMetadata{Label: "o", KeyType: "ECDSA", Curve: prot.Param["curve"], Address: ps.addr, PubKey: ps.pub,
+					SigSch: s.SHA256withECDSA.Name(), Salt: prot.Salt, Key: prot.Key, EncAlg: prot.EncAlg, Hash: prot.Hash})
+			}
+			w.keep = append(w.keep, c2)
+			o = "ok"
+			if op != prm {
+				kinds["other-wallet-foreign-scrypt"] = true
+			} else {
+				kinds["other-wallet"] = true
+			}
 		case p[0] == "rl" && len(p) == 1:
 			c2, err := account.NewClientImpl(w.path)
 			if err != nil {
@@ -534,7 +564,7 @@ func exec(line string) hx.Result {
 		}
 	}
 	res.Kind = "plain"
-	for _, k := range []string{"dup-address", "empty-new-pw", "import-flagged-default", "default-moved", "empty-label", "new", "foreign-import", "deleted", "pw-changed", "reopened"} {
+	for _, k := range []string{"dup-address", "empty-new-pw", "other-wallet-foreign-scrypt", "other-wallet", "import-flagged-default", "default-moved", "empty-label", "new", "foreign-import", "deleted", "pw-changed", "reopened"} {
 		if kinds[k] {
 			res.Kind = k
 			break
@@ -566,7 +596,7 @@ func main() {
 		ID: "C38",
 		Rule: "operation sequences (3-14 ops) on the real ClientImpl with a wallet file under build/tmp and low-cost scrypt parameters in the file: imports of 6 deterministic keys " +
 			"(same key twice, foreign scrypt parameters, empty password, bad key type / scheme, metadata flagged default or not - into empty and non-empty wallets), NewAccount, deletes (default, wrong password), " +
-			"set default, relabel (duplicate, empty, same), password changes (wrong old, same, empty new), scheme changes, reopen in the middle. Non-trivial = the wallet ends with >= 1 account",
+			"set default, relabel (duplicate, empty, same), another wallet file with other / equal scrypt parameters opened and used in the same process, password changes (wrong old, same, empty new), scheme changes, reopen in the middle. Non-trivial = the wallet ends with >= 1 account",
 		Gen:    gen,
 		Exec:   exec,
 		Init:   initOnce,
